@@ -79,6 +79,9 @@ ASSUMES = [
     "Frame body is never removed (documented as required); Frame focus_part is never constructed naming a missing part",
     "histories in which urwid emits a WidgetWarning are cut at that op and the op is not judged (library-defined input domain)",
     "leaf selectability is constant; a parent's selectable() is judged only right after ITS OWN contents were edited",
+    "an exception escaping render/keypress/mouse_event/a valid edit is by-catch, not a C08 verdict (the statement is about focus state): it is counted (bycatch:*), listed under bycatch_crashes_not_judged and ends the history",
+    "the last rendered root canvas is kept alive between ops (as a display does), so CanvasCache is effective and a focus change that is not followed by invalidation shows up in the next canvas",
+    "'rendered with focus' is read from the finished canvas (per-leaf focus glyph) and from the leaves' render(focus=True) calls; both are compared with the focus path walked by hand after the render",
 ]
 
 SIZES = [(20, 10), (31, 7), (13, 16), (24, 5)]
@@ -234,7 +237,9 @@ class World:
 
         def keypress(size, key, _o=orig_k, _n=n):
             hooks.offer(_n)
-            return _o(size, key)
+            res = _o(size, key)
+            hooks.log.events.append(("ckey", _n.cid, _n.kind, key, res))
+            return res
 
         base.keypress = keypress
 
@@ -712,7 +717,9 @@ class Session:
         elif key not in self.cmd:
             self.c("clause:key_unmapped_unchanged")
             if res != key:
-                self.v("C08|keypress|unhandled-unmapped-key-swallowed", f"nobody handles {key!r} but keypress returned {res!r}; path {self.before_chain}")
+                # the deepest container whose keypress changed the key (events are appended on return: first = deepest)
+                by = next((KIND_NAME[e[2]] for e in self.log.events if e[0] == "ckey" and e[4] != key), "?")
+                self.v(f"C08|keypress|unhandled-unmapped-key-swallowed|by:{by}", f"nobody handles {key!r} but keypress returned {res!r}; path {self.before_chain}")
             # a ListBox may complete a deferred focus change (initial "first selectable", set_focus_pending) on any key
             # and position the cursor inside its item via move_cursor_to_coords: ListBoxes and their descendants are exempt
             ul = self.under_list()
@@ -721,7 +728,8 @@ class Session:
             if {k: v for k, v in before.items() if k in ul and v[:2] != after.get(k, (None, None))[:2]}:
                 self.c("key_listbox_deferred_focus_moved")
             if b2 != a2:
-                self.v("C08|keypress|unhandled-unmapped-key-moved-focus", f"{key!r}: focus positions {b2} -> {a2}")
+                kinds = sorted({KIND_NAME[n.kind] for n in all_nodes(self.root) if n.kind != "leaf" and b2.get(n.cid) != a2.get(n.cid)})
+                self.v(f"C08|keypress|unhandled-unmapped-key-moved-focus|of:{'+'.join(kinds)}", f"{key!r}: focus positions {b2} -> {a2}")
         cmd = self.cmd.get(key)
         if cmd in ARROWS and not handled:
             self.c("arrow_keys_judged")
